@@ -515,7 +515,6 @@ def pre (xs : List Name) : Name := xs.flatMap fun x => '_' :: x
 def tokOk (x : Name) : Bool := !x.isEmpty && x.all isAsciiAlnum
 
 theorem pre_append (a b : List Name) : pre (a ++ b) = pre a ++ pre b := by simp [pre, List.flatMap_append]
-theorem pre_cons (x : Name) (xs : List Name) : pre (x :: xs) = '_' :: x ++ pre xs := by simp [pre, List.flatMap_cons]
 
 theorem alnum_ne_underscore {x : Name} (h : x.all isAsciiAlnum = true) : x.all (fun c => c != '_') = true := by
   simp only [List.all_eq_true] at h ⊢
@@ -525,22 +524,22 @@ theorem alnum_ne_underscore {x : Name} (h : x.all isAsciiAlnum = true) : x.all (
   exact absurd (h _ hc) (by decide)
 
 theorem pre_nil : pre [] = [] := rfl
-theorem pre_cons' (x : Name) (xs : List Name) : pre (x :: xs) = '_' :: (x ++ pre xs) := by simp [pre, List.flatMap_cons]
+theorem pre_cons2 (x : Name) (xs : List Name) : pre (x :: xs) = '_' :: (x ++ pre xs) := by simp [pre, List.flatMap_cons]
 
 theorem pre_injective {xs ys : List Name} (hx : xs.all tokOk = true) (hy : ys.all tokOk = true) (h : pre xs = pre ys) : xs = ys := by
   induction xs generalizing ys with
   | nil =>
     cases ys with
     | nil => rfl
-    | cons y ys => rw [pre_nil, pre_cons'] at h; exact absurd h (by simp)
+    | cons y ys => rw [pre_nil, pre_cons2] at h; exact absurd h (by simp)
   | cons x xs ih =>
     cases ys with
-    | nil => rw [pre_nil, pre_cons'] at h; exact absurd h (by simp)
+    | nil => rw [pre_nil, pre_cons2] at h; exact absurd h (by simp)
     | cons y ys =>
       simp only [List.all_cons, Bool.and_eq_true, tokOk] at hx hy
       have hxu := alnum_ne_underscore hx.1.2
       have hyu := alnum_ne_underscore hy.1.2
-      rw [pre_cons', pre_cons'] at h
+      rw [pre_cons2, pre_cons2] at h
       simp only [List.cons.injEq, true_and] at h
       cases xs with
       | nil =>
@@ -548,7 +547,7 @@ theorem pre_injective {xs ys : List Name} (hx : xs.all tokOk = true) (hy : ys.al
         | nil => rw [pre_nil, List.append_nil, List.append_nil] at h; rw [h]
         | cons y' ys' =>
           exfalso
-          rw [pre_nil, List.append_nil, pre_cons'] at h
+          rw [pre_nil, List.append_nil, pre_cons2] at h
           have : '_' ∈ x := by rw [h]; simp
           simp only [List.all_eq_true, bne_iff_ne, ne_eq] at hxu
           exact hxu _ this rfl
@@ -556,15 +555,15 @@ theorem pre_injective {xs ys : List Name} (hx : xs.all tokOk = true) (hy : ys.al
         cases ys with
         | nil =>
           exfalso
-          rw [pre_nil, List.append_nil, pre_cons'] at h
+          rw [pre_nil, List.append_nil, pre_cons2] at h
           have : '_' ∈ y := by rw [← h]; simp
           simp only [List.all_eq_true, bne_iff_ne, ne_eq] at hyu
           exact hyu _ this rfl
         | cons y' ys' =>
           have h' := h
-          rw [pre_cons' x', pre_cons' y'] at h'
+          rw [pre_cons2 x', pre_cons2 y'] at h'
           obtain ⟨e1, e2⟩ := sep_split_unique hxu hyu h'
-          have e3 : pre (x' :: xs') = pre (y' :: ys') := by rw [pre_cons', pre_cons', e2]
+          have e3 : pre (x' :: xs') = pre (y' :: ys') := by rw [pre_cons2, pre_cons2, e2]
           have := ih (ys := y' :: ys') hx.2 hy.2 e3
           rw [e1, this]
 
@@ -654,7 +653,7 @@ theorem pre_all_identChar {xs : List Name} (h : xs.all tokOk = true) : (pre xs).
   | nil => rfl
   | cons x xs ih =>
     simp only [List.all_cons, Bool.and_eq_true, tokOk] at h
-    rw [pre_cons']
+    rw [pre_cons2]
     simp only [List.all_cons, List.all_append, Bool.and_eq_true]
     refine ⟨by decide, ?_, ih h.2⟩
     have := h.1.2
@@ -695,29 +694,29 @@ theorem name_eq_pre (t : Ty) : simple t = true → '_' :: goTypeNameFor t = pre 
   · intro n h; simp [simple] at h
   · intro p _
     simp only [goTypeNameFor, toks]
-    rw [pre_cons', pre_nil, List.append_nil]
+    rw [pre_cons2, pre_nil, List.append_nil]
   · intro ts ih h
     simp only [simple] at h
     simp only [goTypeNameFor, toks]
-    rw [pre_cons', ih h, List.append_assoc]
+    rw [pre_cons2, ih h, List.append_assoc]
   · intro n h; simp [simple] at h
   · intro n h
     simp only [simple] at h
     simp only [goTypeNameFor, toks]
-    rw [pre_cons', pre_nil, List.append_nil, atomOk_goIdent h]
+    rw [pre_cons2, pre_nil, List.append_nil, atomOk_goIdent h]
   · intro n h; simp [simple] at h
   · intro t args _ _ h; simp [simple] at h
   · intro len e ih h
     simp only [simple] at h
     have hn := name_all_of_pre (ih h) (toks_ok e h).1
     simp only [goTypeNameFor, toks]
-    rw [pre_cons', ← ih h, replaceChars_id hn]
+    rw [pre_cons2, ← ih h, replaceChars_id hn]
     simp
   · intro e ih h
     simp only [simple] at h
     have hn := name_all_of_pre (ih h) (toks_ok e h).1
     simp only [goTypeNameFor, toks]
-    rw [pre_cons', ← ih h, replaceChars_id hn]
+    rw [pre_cons2, ← ih h, replaceChars_id hn]
     simp
   · intro e _ h; simp [simple] at h
   · intro n h; simp [simple] at h
